@@ -1,0 +1,155 @@
+//go:build verif
+// +build verif
+
+// Exports for the external verification harness (/verif), property C02 (iterators).
+// Compiled only with -tags verif.
+
+package leveldb
+
+import (
+	"bytes"
+	"errors"
+	"runtime"
+
+	"github.com/syndtr/goleveldb/leveldb/comparer"
+	"github.com/syndtr/goleveldb/leveldb/iterator"
+)
+
+// VerifRawEntry is one internal entry as the raw (merged) iterator under a DB iterator shows it.
+type VerifRawEntry struct {
+	IKey   []byte // user key ++ 8-byte trailer (seq<<8 | kind, little endian)
+	Value  []byte
+	Source string // which child / table provided it (iterator.VerifSourceTag)
+}
+
+func verifDrain(it iterator.Iterator) ([]VerifRawEntry, int, error) {
+	defer it.Release()
+	var out []VerifRawEntry
+	for it.Next() {
+		out = append(out, VerifRawEntry{
+			IKey:   append([]byte{}, it.Key()...),
+			Value:  append([]byte{}, it.Value()...),
+			Source: iterator.VerifSourceTag(it),
+		})
+	}
+	return out, iterator.VerifMergedChildCount(it), it.Error()
+}
+
+// VerifRawEntries returns every internal (ikey, value) pair a raw iterator of the DB sees at
+// this moment (memdb, frozen memdb, every table of the current version), in internal-key order,
+// built exactly as db_iter.go newIterator builds it (no slice), and the number of merged children.
+func VerifRawEntries(db *DB) ([]VerifRawEntry, int, error) {
+	if err := db.ok(); err != nil {
+		return nil, 0, err
+	}
+	return verifDrain(db.newRawIterator(nil, nil, nil, nil))
+}
+
+// VerifRawEntriesTr is VerifRawEntries for a transaction: its memdb and tables in front.
+func VerifRawEntriesTr(tr *Transaction) ([]VerifRawEntry, int, error) {
+	tr.lk.RLock()
+	defer tr.lk.RUnlock()
+	if tr.closed {
+		return nil, 0, errTransactionDone
+	}
+	tr.mem.incref()
+	return verifDrain(tr.db.newRawIterator(tr.mem, tr.tables, nil, nil))
+}
+
+// VerifSeq returns the DB's current sequence number (the seq a new DB iterator gets).
+func VerifSeq(db *DB) uint64 { return db.getSeq() }
+
+// VerifSnapshotSeq returns the sequence number of a snapshot.
+func VerifSnapshotSeq(snap *Snapshot) uint64 { return snap.elem.seq }
+
+// VerifTrSeq returns the sequence number a transaction iterator reads at.
+func VerifTrSeq(tr *Transaction) uint64 {
+	tr.lk.RLock()
+	defer tr.lk.RUnlock()
+	return tr.seq
+}
+
+// VerifWaitCompaction waits until the frozen memdb (if any) is flushed and no table compaction
+// is needed or running any more, so that the physical layout is a function of the operations
+// applied so far.
+func VerifWaitCompaction(db *DB) error {
+	for i := 0; i < 100000; i++ {
+		if err := db.ok(); err != nil {
+			return err
+		}
+		if err := db.compTriggerWait(db.mcompCmdC); err != nil {
+			return err
+		}
+		if db.getFrozenMem0() == nil && !db.tableNeedCompaction() {
+			// the compaction goroutine is idle once it takes another command
+			if err := db.compTriggerWait(db.tcompCmdC); err != nil {
+				return err
+			}
+			if db.getFrozenMem0() == nil && !db.tableNeedCompaction() {
+				return nil
+			}
+		}
+		if err := db.compTriggerWait(db.tcompCmdC); err != nil {
+			return err
+		}
+		runtime.Gosched()
+	}
+	return errors.New("leveldb: VerifWaitCompaction: compactions do not settle")
+}
+
+func (db *DB) getFrozenMem0() *memDB {
+	db.memMu.RLock()
+	defer db.memMu.RUnlock()
+	return db.frozenMem
+}
+
+// VerifLevelSizes returns the number of tables in every level of the current version.
+func VerifLevelSizes(db *DB) []int {
+	v := db.s.version()
+	defer v.release()
+	out := make([]int, len(v.levels))
+	for i, tt := range v.levels {
+		out[i] = len(tt)
+	}
+	return out
+}
+
+// VerifGetOverlapsHonoursComparer probes tFiles.getOverlaps (the sorted, non level-0 branch)
+// with a key constellation on which the user comparer and bytes.Compare disagree and reports
+// whether the answer follows the user comparer.  True when no such constellation exists among
+// the short candidate keys (e.g. for the bytewise comparer).
+func VerifGetOverlapsHonoursComparer(ucmp comparer.Comparer) bool {
+	icmp := &iComparer{ucmp}
+	var cand [][]byte
+	for _, a := range []byte{0x00, 0x01, 0x2a, 0x54, 0x55, 0x56, 0x61, 0x62, 0x63, 0xaa, 0xfe, 0xff} {
+		cand = append(cand, []byte{a})
+		for _, b := range []byte{0x00, 0x55, 0x61, 0xff} {
+			cand = append(cand, []byte{a, b})
+		}
+	}
+	mk := func(a, b []byte) *tFile {
+		return &tFile{imin: makeInternalKey(nil, a, 1, keyTypeVal), imax: makeInternalKey(nil, b, 1, keyTypeVal)}
+	}
+	for _, k1 := range cand {
+		for _, k2 := range cand {
+			if ucmp.Compare(k1, k2) >= 0 {
+				continue
+			}
+			for _, u := range cand {
+				if !(ucmp.Compare(k1, u) < 0 && ucmp.Compare(u, k2) < 0 && bytes.Compare(k2, u) < 0) {
+					continue
+				}
+				// a second file strictly after k2
+				for _, k3 := range cand {
+					if ucmp.Compare(k2, k3) >= 0 {
+						continue
+					}
+					tf := tFiles{mk(k1, k2), mk(k3, k3)}
+					got := tf.getOverlaps(nil, icmp, u, u, false)
+					return len(got) == 1 && got[0] == tf[0]
+				}
+			}
+		}
+	}
+	return true
+}
